@@ -13,6 +13,7 @@ growing adds exactly the requested capacity, waiters first.
 Property theorems only; helper lemmas live in `Lemmas/`.
 -/
 import DeadpoolVerif.Lemmas.Reach
+import DeadpoolVerif.Lemmas.GrowOnly
 import DeadpoolVerif.Lemmas.NoResize
 
 namespace DeadpoolVerif
@@ -151,6 +152,21 @@ theorem C07_capacity_at_rest_partial (cfg : Cfg) (acts : List Action)
   simp only [Sem.waiting, List.append_eq_nil_iff] at w
   have t := a.tok
   simp only [Sem.tokens, w.2, ho, List.length_nil, p0] at t
+  omega
+
+/-- **C07 (growing is exact, full strength on histories that never shrink).** In every history
+in which no `resize` lowers `max_size` and the pool is not closed — any number of grows and
+no-op resizes, interleaved with anything — the limit is effective for every admission (live
+objects never exceed the current `max_size`), and once everything has finished and every
+object has come back the free capacity is exactly the last resize target. -/
+theorem C07_grow_only_exact (cfg : Cfg) (acts : List Action) (h : GrowOnly (init cfg) acts) :
+    (run (init cfg) acts).liveN ≤ (run (init cfg) acts).maxSize ∧
+    ((∀ op ∈ (run (init cfg) acts).ops, op = Op.done) → (run (init cfg) acts).out = [] →
+      (run (init cfg) acts).sem.permits = (run (init cfg) acts).maxSize) := by
+  have d := run_debt_zero (init cfg) acts rfl h
+  refine ⟨C07_effective_when_collected_partial cfg acts d, ?_⟩
+  intro hd ho
+  have := C07_capacity_at_rest_partial cfg acts hd ho
   omega
 
 end DeadpoolVerif
